@@ -152,8 +152,8 @@ def build_repo(profile="rel"):
     if profile == "chk":
         flags += " -C overflow-checks=on -C debug-assertions=on"
     env = dict(os.environ, RUSTFLAGS=flags, KOGE29_VERIF_DIR=VERIF, CARGO_NET_OFFLINE="true")
-    tdir = os.path.join(CACHE, "target-" + profile)
-    with Lock("cargo-" + profile):
+    tdir = os.path.join(CACHE, "target-" + profile + os.environ.get("VERIF_TARGET_SUFFIX", ""))
+    with Lock("cargo-" + profile + os.environ.get("VERIF_TARGET_SUFFIX", "")):
         r = run(["cargo", "build", "--release", "--offline", "--target-dir", tdir], cwd=REPO, env=env)
     exe = os.path.join(tdir, "release", "koge29_h8-3069f_emulator")
     if r.returncode != 0 or not os.path.exists(exe):
@@ -389,8 +389,9 @@ def load_known():
 
 # ---------------------------------------------------------------- main check
 def write_evidence(pid, ev):
-    os.makedirs(os.path.join(VERIF, "evidence"), exist_ok=True)
-    p = os.path.join(VERIF, "evidence", pid + ".json")
+    edir = os.environ.get("VERIF_EVIDENCE_DIR", os.path.join(VERIF, "evidence"))
+    os.makedirs(edir, exist_ok=True)
+    p = os.path.join(edir, pid + ".json")
     json.dump(ev, open(p, "w"), indent=1)
     try:
         import jsonschema
@@ -400,9 +401,10 @@ def write_evidence(pid, ev):
 
 
 def write_replay(pid, payload):
-    os.makedirs(os.path.join(VERIF, "replays"), exist_ok=True)
+    rdir = os.environ.get("VERIF_REPLAY_DIR", os.path.join(VERIF, "replays"))
+    os.makedirs(rdir, exist_ok=True)
     h = hashlib.sha1(json.dumps(payload, sort_keys=True).encode()).hexdigest()[:12]
-    p = os.path.join(VERIF, "replays", "%s-%s.json" % (pid, h))
+    p = os.path.join(rdir, "%s-%s.json" % (pid, h))
     json.dump(payload, open(p, "w"), indent=1)
     return p
 
